@@ -40,7 +40,7 @@ TOL = 1e-8
 
 
 def examples(tier):
-    return 480 if tier == "quick" else 6000
+    return 800 if tier == "quick" else 8000
 
 
 @st.composite
@@ -48,7 +48,7 @@ def strategy(draw, tier="quick"):
     kind = draw(st.sampled_from(["short"] * 5 + ["long"]))
     salt = draw(st.one_of(st.none(), st.integers(0, 2**32 - 1)))
     if kind == "short":
-        g = draw(gen.grammar(regimes=["FLOAT"], max_terms=2))
+        g = draw(gen.grammar(regimes=["FLOAT"], max_terms=2, cycle_rate=0.35))
         return {
             "kind": "short",
             "g": g,
